@@ -10,7 +10,7 @@
 //     (bit patterns; NaN_a=0x7fc00000, NaN_b=0xffc00001), x a second
 //     attribute from a 2-value alphabet set per corner or per face
 //     (SetPerFaceAttributeValueForFace), of type float32x3 / uint8x4 /
-//     int32x1 / int16x5; plus a 5-attribute space;
+//     int32x1 / int16x5; plus two 5-attribute spaces;
 //   * point sets with N <= 4 points through PointCloudBuilder (three setter
 //     paths) with and without Finalize(deduplicate_points).
 // On every result: RefGeom against the reference computed from the case
@@ -18,10 +18,17 @@
 // MeshCleanup with all 16 option subsets judged by the sandwich (i)-(iv) of
 // DESIGN C14, MeshStripifier in both output modes decoded by a small
 // reference decoder.
+//
+// RefGeom here is the model of checks/refgeom_io.h specialised to the finite
+// value alphabets: a value read from the mesh (validated accessors of
+// refgeom_io.h, byte-exact memcmp) is replaced by its index in the alphabet,
+// a corner tuple by the mixed-radix number of its value indices, a triangle
+// by the smallest rotation of its three tuple numbers; bytes that are not in
+// the alphabet are reported as such. This keeps the hot path free of heap
+// allocations (ASan build).
+#include <algorithm>
 #include <array>
 #include <iterator>
-#include <map>
-#include <set>
 
 #include "checks/refgeom_io.h"
 #include "draco/mesh/mesh_cleanup.h"
@@ -44,36 +51,73 @@ const uint32_t kPosBits[5][3] = {
 };
 const char *kPosName[5] = {"(0,0,0)", "(0,0,-0)", "(1,0,0)", "(0,NaNa,0)", "(0,NaNb,0)"};
 
-std::string pos_bytes(int k) { return std::string(reinterpret_cast<const char *>(kPosBits[k]), 12); }
-
 struct TypeInfo {
   const char *name;
   GeometryAttribute::Type at;
   DataType dt;
   int comps;
-  std::string val[2];
+  int nbytes;
+  uint8_t val[2][20];
 };
 
-template <typename T>
-std::string bytes_of(std::initializer_list<T> v) {
-  std::string s;
-  for (T x : v) s.append(reinterpret_cast<const char *>(&x), sizeof(T));
-  return s;
+TypeInfo make_type(const char *name, GeometryAttribute::Type at, DataType dt, int comps, const void *v0, const void *v1) {
+  TypeInfo t;
+  t.name = name;
+  t.at = at;
+  t.dt = dt;
+  t.comps = comps;
+  t.nbytes = DataTypeLength(dt) * comps;
+  memset(t.val, 0, sizeof t.val);
+  memcpy(t.val[0], v0, t.nbytes);
+  memcpy(t.val[1], v1, t.nbytes);
+  return t;
 }
 
 const TypeInfo &type_info(int t) {
+  // (0,0,1) vs (-0.0,0,1): equal under ==, different bytes
+  static const uint32_t f0[3] = {0x00000000u, 0x00000000u, 0x3f800000u}, f1[3] = {0x80000000u, 0x00000000u, 0x3f800000u};
+  static const uint8_t u0[4] = {1, 2, 3, 4}, u1[4] = {1, 2, 3, 5};
+  static const int32_t i0[1] = {7}, i1[1] = {INT32_MIN};
+  static const int16_t s0[5] = {1, 2, 3, 4, 5}, s1[5] = {1, 2, 3, 4, -5};
   static const TypeInfo k[4] = {
-      // (0,0,1) vs (-0.0,0,1): equal under ==, different bytes
-      {"f32x3", GeometryAttribute::NORMAL, DT_FLOAT32, 3,
-       {bytes_of<uint32_t>({0x00000000u, 0x00000000u, 0x3f800000u}),
-        bytes_of<uint32_t>({0x80000000u, 0x00000000u, 0x3f800000u})}},
-      {"u8x4", GeometryAttribute::COLOR, DT_UINT8, 4, {bytes_of<uint8_t>({1, 2, 3, 4}), bytes_of<uint8_t>({1, 2, 3, 5})}},
-      {"i32x1", GeometryAttribute::GENERIC, DT_INT32, 1, {bytes_of<int32_t>({7}), bytes_of<int32_t>({INT32_MIN})}},
-      {"i16x5", GeometryAttribute::GENERIC, DT_INT16, 5,
-       {bytes_of<int16_t>({1, 2, 3, 4, 5}), bytes_of<int16_t>({1, 2, 3, 4, -5})}},
+      make_type("f32x3", GeometryAttribute::NORMAL, DT_FLOAT32, 3, f0, f1),
+      make_type("u8x4", GeometryAttribute::COLOR, DT_UINT8, 4, u0, u1),
+      make_type("i32x1", GeometryAttribute::GENERIC, DT_INT32, 1, i0, i1),
+      make_type("i16x5", GeometryAttribute::GENERIC, DT_INT16, 5, s0, s1),
   };
   return k[t];
 }
+
+// counter names as objects: Ctx::count takes a std::string and is called ~50 times per case
+const std::string k_cleanup_faces_removed_degenerate = "cleanup_faces_removed_degenerate";
+const std::string k_cleanup_faces_removed_duplicate = "cleanup_faces_removed_duplicate";
+const std::string k_cleanup_points_removed_unused = "cleanup_points_removed_unused";
+const std::string k_cleanup_runs = "cleanup_runs";
+const std::string k_cleanup_runs_keeping_all_faces = "cleanup_runs_keeping_all_faces";
+const std::string k_cleanup_runs_keeping_faces_equal_in_position_only = "cleanup_runs_keeping_faces_equal_in_position_only";
+const std::string k_cleanup_values_removed_unused = "cleanup_values_removed_unused";
+const std::string k_clouds_built = "clouds_built";
+const std::string k_clouds_where_points_were_merged = "clouds_where_points_were_merged";
+const std::string k_dedup_applications = "dedup_applications";
+const std::string k_soups_built = "soups_built";
+const std::string k_soups_where_points_were_merged = "soups_where_points_were_merged";
+const std::string k_soups_where_position_values_were_merged = "soups_where_position_values_were_merged";
+const std::string k_soups_with_duplicates_left = "soups_with_duplicates_left";
+const std::string k_soups_with_equal_nan_corners_merged = "soups_with_equal_nan_corners_merged";
+const std::string k_soups_with_plus_and_minus_zero_kept_apart = "soups_with_plus_and_minus_zero_kept_apart";
+const std::string k_soups_with_two_nan_payloads_kept_apart = "soups_with_two_nan_payloads_kept_apart";
+const std::string k_strip_cases_with_multi_face_strip_degenerate = "strip_cases_with_multi_face_strip_degenerate";
+const std::string k_strip_cases_with_multi_face_strip_restart = "strip_cases_with_multi_face_strip_restart";
+const std::string k_strip_cases_with_separator_degenerate = "strip_cases_with_separator_degenerate";
+const std::string k_strip_cases_with_separator_restart = "strip_cases_with_separator_restart";
+const std::string k_strip_degenerate_triangles_skipped_by_reference_decoder = "strip_degenerate_triangles_skipped_by_reference_decoder";
+const std::string k_strip_generate_false_on_empty_mesh = "strip_generate_false_on_empty_mesh";
+const std::string k_strip_runs_degenerate = "strip_runs_degenerate";
+const std::string k_strip_runs_restart = "strip_runs_restart";
+const std::string k_strips_emitted_degenerate = "strips_emitted_degenerate";
+const std::string k_strips_emitted_restart = "strips_emitted_restart";
+
+const int kMaxAtts = 5, kMaxPts = 9, kMaxFaces = 3;
 
 struct ExtraSpec {
   int type;       // index into type_info
@@ -88,7 +132,8 @@ struct Extra {
 struct Soup {
   int F = 0;
   int pos[9] = {0};
-  std::vector<Extra> extra;
+  int nextra = 0;
+  Extra extra[4];
 };
 
 std::string show(const Soup &s) {
@@ -98,10 +143,11 @@ std::string show(const Soup &s) {
     for (int k = 0; k < 3; ++k) o += std::string(k ? " " : "") + kPosName[s.pos[3 * f + k]];
     o += "]";
   }
-  for (auto &e : s.extra) {
+  for (int i = 0; i < s.nextra; ++i) {
+    const Extra &e = s.extra[i];
     o += std::string(" +") + type_info(e.spec.type).name + (e.spec.per_face ? " per-face values:" : " per-corner values:");
     const int n = e.spec.per_face ? s.F : 3 * s.F;
-    for (int i = 0; i < n; ++i) o += char('0' + ((e.bits >> i) & 1));
+    for (int j = 0; j < n; ++j) o += char('0' + ((e.bits >> j) & 1));
   }
   return o;
 }
@@ -116,120 +162,248 @@ std::string input_class(const Soup &s) {
   std::string k = "F" + std::to_string(s.F);
   if (z0 && z1) k += ",+0and-0";
   if (nan) k += ",nan";
-  for (auto &e : s.extra) k += std::string(",") + type_info(e.spec.type).name + (e.spec.per_face ? "/face" : "/corner");
+  for (int i = 0; i < s.nextra; ++i)
+    k += std::string(",") + type_info(s.extra[i].spec.type).name + (s.extra[i].spec.per_face ? "/face" : "/corner");
   return k;
 }
 
-// ------------------------------------------------------------ small helpers
-bool has_duplicate_values(const PointAttribute *att, uint32_t *a, uint32_t *b) {
-  std::map<std::string, uint32_t> seen;
-  for (uint32_t i = 0; i < att->size(); ++i) {
-    std::string v;
-    if (!rg::read_entry(att, i, &v, nullptr)) return false;
-    auto it = seen.find(v);
-    if (it != seen.end()) {
-      *a = it->second;
-      *b = i;
-      return true;
+// The input-class string is only needed when something is reported.
+struct LazyClass {
+  const Soup *s;
+  operator std::string() const { return input_class(*s); }
+};
+inline std::string operator+(const std::string &a, const LazyClass &c) { return a + std::string(c); }
+inline std::string operator+(const char *a, const LazyClass &c) { return a + std::string(c); }
+inline std::string operator+(const LazyClass &c, const std::string &b) { return std::string(c) + b; }
+inline std::string operator+(const LazyClass &c, const char *b) { return std::string(c) + b; }
+
+// --------------------------------------------------------------- snapshot
+// Everything observable of a small mesh / point cloud, read through the
+// validated public accessors; fixed size, no heap.
+struct Snap {
+  uint32_t np = 0, nf = 0;
+  int na = 0;
+  uint32_t face[kMaxFaces][3];
+  uint32_t size[kMaxAtts];
+  uint8_t vsize[kMaxAtts];
+  uint32_t map[kMaxAtts][kMaxPts];
+  uint8_t raw[kMaxAtts][kMaxPts][20];
+  uint8_t code[kMaxAtts][kMaxPts];  // alphabet index of the entry, 255 = not in the alphabet
+  int desc[kMaxAtts][3];
+
+  bool same_as(const Snap &o) const {
+    if (np != o.np || nf != o.nf || na != o.na) return false;
+    for (uint32_t f = 0; f < nf; ++f)
+      for (int k = 0; k < 3; ++k)
+        if (face[f][k] != o.face[f][k]) return false;
+    for (int a = 0; a < na; ++a) {
+      if (size[a] != o.size[a] || vsize[a] != o.vsize[a]) return false;
+      for (int d = 0; d < 3; ++d)
+        if (desc[a][d] != o.desc[a][d]) return false;
+      for (uint32_t p = 0; p < np; ++p)
+        if (map[a][p] != o.map[a][p]) return false;
+      for (uint32_t i = 0; i < size[a]; ++i)
+        if (memcmp(raw[a][i], o.raw[a][i], vsize[a])) return false;
     }
-    seen[v] = i;
+    return true;
   }
-  return false;
-}
-
-bool has_duplicate_points(const PointCloud &pc, uint32_t *a, uint32_t *b) {
-  std::map<std::vector<uint32_t>, uint32_t> seen;
-  for (uint32_t p = 0; p < pc.num_points(); ++p) {
-    std::vector<uint32_t> t;
-    for (int i = 0; i < pc.num_attributes(); ++i) t.push_back(pc.attribute(i)->mapped_index(PointIndex(p)).value());
-    auto it = seen.find(t);
-    if (it != seen.end()) {
-      *a = it->second;
-      *b = p;
-      return true;
+  // structure only (no value bytes): entries per attribute, maps, faces
+  uint64_t structure_hash() const {
+    uint64_t h = mc::hash_combine(np, nf * 16 + na);
+    for (uint32_t f = 0; f < nf; ++f)
+      for (int k = 0; k < 3; ++k) h = mc::hash_combine(h, face[f][k]);
+    for (int a = 0; a < na; ++a) {
+      h = mc::hash_combine(h, size[a] * 32 + vsize[a]);
+      for (uint32_t p = 0; p < np; ++p) h = mc::hash_combine(h, map[a][p]);
     }
-    seen[t] = p;
+    return h;
   }
-  return false;
+};
+
+// |types|: for attribute a > 0 the type_info index (alphabet to match).
+bool take(const PointCloud &pc, const Mesh *mesh, const int *types, Snap *s, std::string *err) {
+  s->np = pc.num_points();
+  s->na = pc.num_attributes();
+  s->nf = mesh ? mesh->num_faces() : 0;
+  if (s->np > (uint32_t)kMaxPts || s->na > kMaxAtts || s->nf > (uint32_t)kMaxFaces) {
+    *err = "more points/faces/attributes than the input had corners: points " + std::to_string(s->np) + " faces " +
+           std::to_string(s->nf) + " attributes " + std::to_string(s->na);
+    return false;
+  }
+  for (int a = 0; a < s->na; ++a) {
+    const PointAttribute *att = pc.attribute(a);
+    s->desc[a][0] = att->attribute_type();
+    s->desc[a][1] = att->data_type();
+    s->desc[a][2] = att->num_components();
+    const int n = rg::value_size(att);
+    if (n > 20 || att->size() > (size_t)kMaxPts) {
+      *err = "attribute " + std::to_string(a) + " has " + std::to_string(att->size()) + " entries of " + std::to_string(n) +
+             " bytes";
+      return false;
+    }
+    s->vsize[a] = n;
+    s->size[a] = att->size();
+    for (uint32_t i = 0; i < s->size[a]; ++i) {
+      const uint8_t *p = rg::entry_ptr(att, i);
+      if (!p) {
+        *err = "attribute " + std::to_string(a) + " entry " + std::to_string(i) + " outside the data buffer";
+        return false;
+      }
+      memcpy(s->raw[a][i], p, n);
+      uint8_t code = 255;
+      if (a == 0) {
+        if (n == 12)
+          for (int k = 0; k < 5; ++k)
+            if (!memcmp(p, kPosBits[k], 12)) code = k;
+      } else {
+        const TypeInfo &ti = type_info(types[a - 1]);
+        if (n == ti.nbytes)
+          for (int k = 0; k < 2; ++k)
+            if (!memcmp(p, ti.val[k], n)) code = k;
+      }
+      s->code[a][i] = code;
+    }
+    for (uint32_t p = 0; p < s->np; ++p)
+      if (!rg::mapped(att, p, &s->map[a][p], err)) {
+        *err = "attribute " + std::to_string(a) + ": " + *err;
+        return false;
+      }
+  }
+  for (uint32_t f = 0; f < s->nf; ++f)
+    for (int k = 0; k < 3; ++k) {
+      s->face[f][k] = mesh->face(FaceIndex(f))[k].value();
+      if (s->face[f][k] >= s->np) {
+        *err = "face " + std::to_string(f) + " uses point " + std::to_string(s->face[f][k]) + " >= num_points " +
+               std::to_string(s->np);
+        return false;
+      }
+    }
+  return true;
 }
 
-std::string att_class(const PointAttribute *att) {
-  std::string s = "dt" + std::to_string(att->data_type()) + "x" + std::to_string(att->num_components());
-  if (att->num_components() > 4) s += "(more-than-4-components)";
-  return s;
+// Tuple number of point p (mixed radix: position index + 5 * second-attribute
+// bits); -1 when some value is not from the input alphabet.
+int tuple_of(const Snap &s, uint32_t p) {
+  int t = 0, radix = 1;
+  for (int a = 0; a < s.na; ++a) {
+    const uint8_t c = s.code[a][s.map[a][p]];
+    if (c == 255) return -1;
+    t += c * radix;
+    radix *= a == 0 ? 5 : 2;
+  }
+  return t;
 }
 
-// Checks "no two values with equal bytes, no two points with equal index
-// tuples" on a deduplicated geometry. Returns false after reporting.
-bool check_no_duplicates(const PointCloud &pc, const std::string &where, mc::Ctx &ctx) {
+inline uint32_t canon3(uint32_t a, uint32_t b, uint32_t c) {
+  const uint32_t r0 = a << 20 | b << 10 | c, r1 = b << 20 | c << 10 | a, r2 = c << 20 | a << 10 | b;
+  return std::min(r0, std::min(r1, r2));
+}
+
+struct Tris {
+  int n = 0;
+  uint32_t k[kMaxFaces];
+  void add(uint32_t x) { k[n++] = x; }
+  void sort() { std::sort(k, k + n); }
+  bool operator==(const Tris &o) const { return n == o.n && std::equal(k, k + n, o.k); }
+  bool operator!=(const Tris &o) const { return !(*this == o); }
+};
+
+std::string show(const Tris &t) {
+  std::string s = "{";
+  for (int i = 0; i < t.n; ++i) {
+    char b[48];
+    snprintf(b, sizeof b, "%s(%u,%u,%u)", i ? " " : "", t.k[i] >> 20, (t.k[i] >> 10) & 1023, t.k[i] & 1023);
+    s += b;
+  }
+  return s + "} as corner tuple numbers (position index + 5*second-attribute bits)";
+}
+
+// RefGeom of a mesh snapshot: sorted rotation-canonical triples of tuple numbers.
+bool geom_of(const Snap &s, Tris *out, std::string *err) {
+  out->n = 0;
+  for (uint32_t f = 0; f < s.nf; ++f) {
+    int t[3];
+    for (int k = 0; k < 3; ++k) {
+      t[k] = tuple_of(s, s.face[f][k]);
+      if (t[k] < 0) {
+        *err = "face " + std::to_string(f) + " corner " + std::to_string(k) + " carries a value that is not an input value";
+        return false;
+      }
+    }
+    out->add(canon3(t[0], t[1], t[2]));
+  }
+  out->sort();
+  return true;
+}
+
+std::string att_class(const Snap &s, int a) {
+  std::string c = "dt" + std::to_string(s.desc[a][1]) + "x" + std::to_string(s.desc[a][2]);
+  if (s.desc[a][2] > 4) c += "(more-than-4-components)";
+  return c;
+}
+
+// "no two values with equal bytes, no two points with equal index tuples"
+bool check_no_duplicates(const Snap &s, const char *where, mc::Ctx &ctx) {
   bool ok = true;
-  for (int a = 0; a < pc.num_attributes(); ++a) {
-    uint32_t i, j;
-    if (has_duplicate_values(pc.attribute(a), &i, &j)) {
-      ctx.fail("dedup:identical-values-remain|" + att_class(pc.attribute(a)),
-               where + ": attribute " + std::to_string(a) + " entries " + std::to_string(i) + " and " + std::to_string(j) +
-                   " hold the same bytes after deduplication");
-      ok = false;
+  for (int a = 0; a < s.na; ++a)
+    for (uint32_t i = 0; i < s.size[a] && ok; ++i)
+      for (uint32_t j = i + 1; j < s.size[a]; ++j)
+        if (!memcmp(s.raw[a][i], s.raw[a][j], s.vsize[a])) {
+          ctx.fail("dedup:identical-values-remain|" + att_class(s, a),
+                   std::string(where) + ": attribute " + std::to_string(a) + " entries " + std::to_string(i) + " and " +
+                       std::to_string(j) + " hold the same bytes after deduplication");
+          ok = false;
+          break;
+        }
+  for (uint32_t p = 0; p < s.np; ++p)
+    for (uint32_t q = p + 1; q < s.np; ++q) {
+      bool same = true;
+      for (int a = 0; a < s.na; ++a) same = same && s.map[a][p] == s.map[a][q];
+      if (same && s.na > 0) {
+        ctx.fail("dedup:identical-points-remain", std::string(where) + ": points " + std::to_string(p) + " and " + std::to_string(q) +
+                                                      " map to the same entries of every attribute");
+        return false;
+      }
     }
-  }
-  uint32_t i, j;
-  if (has_duplicate_points(pc, &i, &j)) {
-    ctx.fail("dedup:identical-points-remain", where + ": points " + std::to_string(i) + " and " + std::to_string(j) +
-                                                  " map to the same entries of every attribute");
-    ok = false;
-  }
   return ok;
 }
 
-// Applies value + point-id dedup once; false after reporting.
-template <class G>
-bool apply_dedup(G *g, const std::string &where, mc::Ctx &ctx) {
+template <class G, class W>
+bool apply_dedup(G *g, const W &where, mc::Ctx &ctx) {
   if (!g->DeduplicateAttributeValues()) {
-    ctx.fail("dedup:values-returned-false", where);
+    ctx.fail("dedup:values-returned-false", std::string(where));
     return false;
   }
   g->DeduplicatePointIds();
-  ctx.count("dedup_applications");
+  ctx.count(k_dedup_applications);
   return true;
 }
 
 // ----------------------------------------------------------------- strips
-typedef std::array<uint32_t, 3> Tri;
-Tri canon(Tri t) {
-  while (t[0] > t[1] || t[0] > t[2]) {
-    const uint32_t x = t[0];
-    t[0] = t[1];
-    t[1] = t[2];
-    t[2] = x;
-  }
-  return t;
-}
-bool degenerate(const Tri &t) { return t[0] == t[1] || t[1] == t[2] || t[0] == t[2]; }
+inline bool degenerate3(const uint32_t *t) { return t[0] == t[1] || t[1] == t[2] || t[0] == t[2]; }
 
 // Reference strip decoder: restart index (if any) starts a new strip,
 // alternating winding inside a strip, degenerate triangles are skipped.
-std::vector<Tri> decode_strips(const std::vector<uint32_t> &idx, bool use_restart, uint32_t restart, int *num_strips,
-                               int *num_skipped) {
-  std::vector<Tri> out;
-  size_t start = 0;
-  *num_strips = 0;
+void decode_strips(const std::vector<uint32_t> &idx, bool use_restart, uint32_t restart, std::vector<uint32_t> *tris,
+                   int *num_skipped) {
+  tris->clear();
   *num_skipped = 0;
+  size_t start = 0;
   while (start <= idx.size()) {
     size_t end = start;
     while (end < idx.size() && !(use_restart && idx[end] == restart)) ++end;
-    if (end > start) ++*num_strips;
     for (size_t i = start; i + 2 < end; ++i) {
-      Tri t = ((i - start) & 1) ? Tri{idx[i + 1], idx[i], idx[i + 2]} : Tri{idx[i], idx[i + 1], idx[i + 2]};
-      if (degenerate(t)) {
+      uint32_t t[3] = {idx[i], idx[i + 1], idx[i + 2]};
+      if ((i - start) & 1) std::swap(t[0], t[1]);
+      if (degenerate3(t)) {
         ++*num_skipped;
         continue;
       }
-      out.push_back(canon(t));
+      tris->push_back(canon3(t[0], t[1], t[2]));
     }
     start = end + 1;
   }
-  std::sort(out.begin(), out.end());
-  return out;
+  std::sort(tris->begin(), tris->end());
 }
 
 std::string show_idx(const std::vector<uint32_t> &v) {
@@ -238,62 +412,60 @@ std::string show_idx(const std::vector<uint32_t> &v) {
   return s;
 }
 
-bool check_strips(const Mesh &mesh, const std::string &cls, mc::Ctx &ctx, bool *multi_face_strip) {
-  std::vector<Tri> expect;
-  for (uint32_t f = 0; f < mesh.num_faces(); ++f) {
-    const Mesh::Face &face = mesh.face(FaceIndex(f));
-    Tri t{face[0].value(), face[1].value(), face[2].value()};
-    if (!degenerate(t)) expect.push_back(canon(t));
-  }
+uint32_t unoriented(uint32_t k) {
+  uint32_t t[3] = {k >> 20, (k >> 10) & 1023, k & 1023};
+  std::sort(t, t + 3);
+  return t[0] << 20 | t[1] << 10 | t[2];
+}
+
+bool check_strips(const Mesh &mesh, const Snap &s, const LazyClass &cls, mc::Ctx &ctx, bool *multi_face_strip) {
+  // workers are single-threaded forks: reuse the buffers' capacity
+  static std::vector<uint32_t> expect, got, out;
+  expect.clear();
+  for (uint32_t f = 0; f < s.nf; ++f)
+    if (!degenerate3(s.face[f])) expect.push_back(canon3(s.face[f][0], s.face[f][1], s.face[f][2]));
   std::sort(expect.begin(), expect.end());
   for (int mode = 0; mode < 2; ++mode) {
-    std::vector<uint32_t> out;
+    out.clear();
     MeshStripifier st;
     const bool ok = mode == 0 ? st.GenerateTriangleStripsWithPrimitiveRestart(mesh, uint32_t(0xffffffffu),
                                                                              std::back_inserter(out))
                               : st.GenerateTriangleStripsWithDegenerateTriangles(mesh, std::back_inserter(out));
     const char *mname = mode == 0 ? "restart" : "degenerate";
-    ctx.count(std::string("strip_runs_") + mname);
+    ctx.count(mode == 0 ? k_strip_runs_restart : k_strip_runs_degenerate);
     if (!ok) {
-      if (mesh.num_faces() == 0) {
-        ctx.count("strip_generate_false_on_empty_mesh");
+      if (s.nf == 0) {
+        ctx.count(k_strip_generate_false_on_empty_mesh);
         continue;
       }
-      ctx.fail(std::string("strip:generate-returned-false|") + mname, cls);
+      ctx.fail(std::string("strip:generate-returned-false|") + mname, std::string(cls));
       return false;
     }
     for (uint32_t x : out)
-      if (!(mode == 0 && x == 0xffffffffu) && x >= mesh.num_points()) {
+      if (!(mode == 0 && x == 0xffffffffu) && x >= s.np) {
         ctx.fail(std::string("strip:index-out-of-range|") + mname, cls + " strip: " + show_idx(out));
         return false;
       }
-    int nstrips = 0, nskipped = 0;
-    std::vector<Tri> got = decode_strips(out, mode == 0, 0xffffffffu, &nstrips, &nskipped);
+    int nskipped = 0;
+    decode_strips(out, mode == 0, 0xffffffffu, &got, &nskipped);
     if (got != expect) {
-      // classify: same triangles ignoring orientation?
-      auto unoriented = [](std::vector<Tri> v) {
-        for (auto &t : v) std::sort(t.begin(), t.end());
-        std::sort(v.begin(), v.end());
-        return v;
-      };
-      const bool winding_only = unoriented(got) == unoriented(expect);
-      ctx.fail(std::string("strip:") + (winding_only ? "wrong-winding|" : "triangles-differ|") + mname +
+      std::vector<uint32_t> a = got, b = expect;
+      for (auto &x : a) x = unoriented(x);
+      for (auto &x : b) x = unoriented(x);
+      std::sort(a.begin(), a.end());
+      std::sort(b.begin(), b.end());
+      ctx.fail(std::string("strip:") + (a == b ? "wrong-winding|" : "triangles-differ|") + mname +
                    (st.num_strips() > 1 ? ",multiple-strips" : ",single-strip"),
                cls + " strip: " + show_idx(out) + " decoded " + std::to_string(got.size()) + " triangles, mesh has " +
                    std::to_string(expect.size()) + " non-degenerate");
       return false;
     }
-    // outcome counters
-    ctx.count(std::string("strips_emitted_") + mname, st.num_strips());
-    if (st.num_strips() > 1) ctx.count(std::string("strip_cases_with_separator_") + mname);
-    if (mode == 1 && st.num_strips() > 1) {
-      // separators of 3 vs 4 degenerate triangles (parity fix-up)
-      // 3 indices per first strip face + 1 per further face; everything
-      // beyond that is separator material
-      ctx.count("strip_degenerate_triangles_skipped", nskipped);
-    }
-    if ((int)mesh.num_faces() > st.num_strips() && st.num_strips() > 0) {
-      ctx.count(std::string("strip_cases_with_multi_face_strip_") + mname);
+    const int ns = st.num_strips();
+    ctx.count(mode == 0 ? k_strips_emitted_restart : k_strips_emitted_degenerate, ns);
+    if (ns > 1) ctx.count(mode == 0 ? k_strip_cases_with_separator_restart : k_strip_cases_with_separator_degenerate);
+    if (mode == 1 && ns > 1) ctx.count(k_strip_degenerate_triangles_skipped_by_reference_decoder, nskipped);
+    if ((int)s.nf > ns && ns > 0) {
+      ctx.count(mode == 0 ? k_strip_cases_with_multi_face_strip_restart : k_strip_cases_with_multi_face_strip_degenerate);
       *multi_face_strip = true;
     }
   }
@@ -301,138 +473,167 @@ bool check_strips(const Mesh &mesh, const std::string &cls, mc::Ctx &ctx, bool *
 }
 
 // ---------------------------------------------------------------- cleanup
-struct KeyInfo {
-  int n_in = 0, n_out = 0, n_required = 0, n_deg_witness = 0;
-  std::string pk;
+struct FaceInfo {
+  uint32_t K, PK;  // full / position-only rotation-canonical keys
+  bool posdeg;     // two corners share a position entry
+  bool ids_distinct;
+  uint32_t pcls;  // rotation-canonical point triple
 };
 
-bool face_keys(const Mesh &m, const std::vector<int> &all, uint32_t f, std::string *K, std::string *PK, bool *posdeg,
-               std::string *err) {
-  const Mesh::Face &face = m.face(FaceIndex(f));
-  std::string c[3], p[3];
-  uint32_t pe[3];
+bool face_info(const Snap &s, uint32_t f, FaceInfo *fi, std::string *err) {
+  int t[3], p[3];
   for (int k = 0; k < 3; ++k) {
-    if (!rg::point_tuple(m, all, face[k].value(), &c[k], err)) return false;
-    if (!rg::point_tuple(m, {0}, face[k].value(), &p[k], err)) return false;
-    if (!rg::mapped(m.attribute(0), face[k].value(), &pe[k], err)) return false;
+    t[k] = tuple_of(s, s.face[f][k]);
+    if (t[k] < 0) {
+      *err = "face " + std::to_string(f) + " corner " + std::to_string(k) + " carries a value that is not an input value";
+      return false;
+    }
+    p[k] = t[k] % 5;
   }
-  *K = rg::canon_tri(c[0], c[1], c[2]);
-  *PK = rg::canon_tri(p[0], p[1], p[2]);
-  *posdeg = pe[0] == pe[1] || pe[1] == pe[2] || pe[0] == pe[2];
+  const uint32_t e0 = s.map[0][s.face[f][0]], e1 = s.map[0][s.face[f][1]], e2 = s.map[0][s.face[f][2]];
+  fi->K = canon3(t[0], t[1], t[2]);
+  fi->PK = canon3(p[0], p[1], p[2]);
+  fi->posdeg = e0 == e1 || e1 == e2 || e0 == e2;
+  fi->ids_distinct = !degenerate3(s.face[f]);
+  fi->pcls = canon3(s.face[f][0], s.face[f][1], s.face[f][2]);
   return true;
 }
 
+const char *kOptName[16] = {"opts=----", "opts=D---", "opts=-U--", "opts=DU--", "opts=--A-", "opts=D-A-", "opts=-UA-", "opts=DUA-",
+                            "opts=---M", "opts=D--M", "opts=-U-M", "opts=DU-M", "opts=--AM", "opts=D-AM", "opts=-UAM", "opts=DUAM"};
+
 // One clean-up run judged by the sandwich. Returns false after reporting.
-bool check_cleanup(const Mesh &mesh, int opt_mask, const std::string &cls, mc::Ctx &ctx, bool *removed_any) {
+// Brings |dst| (a clone of |src| that a clean-up run has modified in place)
+// back to the state of |src| through public setters only; unlike a fresh
+// clone this re-uses the allocations (clone + destroy of a Mesh dominated the
+// run time under ASan). The caller verifies the restored state.
+void restore_mesh(const Mesh &src, Mesh *dst) {
+  dst->set_num_points(src.num_points());
+  for (int a = 0; a < src.num_attributes(); ++a) dst->attribute(a)->CopyFrom(*src.attribute(a));
+  dst->SetNumFaces(src.num_faces());
+  for (uint32_t f = 0; f < src.num_faces(); ++f) dst->SetFace(FaceIndex(f), src.face(FaceIndex(f)));
+}
+
+bool check_cleanup(const Mesh &mesh, Mesh *out, const Snap &in, const FaceInfo *fin, const int *types, int opt_mask,
+                   const LazyClass &cls, mc::Ctx &ctx, bool *removed_any) {
   MeshCleanupOptions opt;
   opt.remove_degenerated_faces = opt_mask & 1;
   opt.remove_duplicate_faces = opt_mask & 2;
   opt.remove_unused_attributes = opt_mask & 4;
   opt.make_geometry_manifold = opt_mask & 8;
-  const std::string oname = std::string("opts=") + (opt_mask & 1 ? "D" : "-") + (opt_mask & 2 ? "U" : "-") +
-                            (opt_mask & 4 ? "A" : "-") + (opt_mask & 8 ? "M" : "-");
-  const std::vector<int> all = rg::all_atts(mesh);
+  const std::string oname = kOptName[opt_mask];
   std::string err;
+  const uint32_t nf = in.nf;
 
-  // Input side, per face in order.
-  const uint32_t nf = mesh.num_faces();
-  std::map<std::string, KeyInfo> keys;
-  std::vector<std::string> K(nf), PK(nf);
-  std::vector<char> posdeg(nf), removed_ref(nf, 0);
+  // distinct triangle keys of the input with their bookkeeping
+  struct KeyInfo {
+    uint32_t K, PK;
+    int n_in = 0, n_out = 0, n_required = 0, n_deg_witness = 0;
+  } keys[kMaxFaces];
+  int nkeys = 0;
+  int key_of[kMaxFaces];
   for (uint32_t f = 0; f < nf; ++f) {
-    bool d;
-    if (!face_keys(mesh, all, f, &K[f], &PK[f], &d, &err)) {
-      ctx.fail("cleanup:input-invalid", err);
-      return false;
+    int k = 0;
+    while (k < nkeys && keys[k].K != fin[f].K) ++k;
+    if (k == nkeys) {
+      keys[k].K = fin[f].K;
+      keys[k].PK = fin[f].PK;
+      ++nkeys;
     }
-    posdeg[f] = d;
-    KeyInfo &ki = keys[K[f]];
-    ki.n_in++;
-    ki.pk = PK[f];
+    key_of[f] = k;
+    keys[k].n_in++;
   }
-  // Required removals (iii).
+  // Required removals (iii), on the input faces in order.
+  bool removed_ref[kMaxFaces] = {false, false, false};
   if (opt.remove_degenerated_faces)
     for (uint32_t f = 0; f < nf; ++f)
-      if (posdeg[f]) {
-        removed_ref[f] = 1;
-        keys[K[f]].n_required++;
-        keys[K[f]].n_deg_witness++;
+      if (fin[f].posdeg) {
+        removed_ref[f] = true;
+        keys[key_of[f]].n_required++;
+        keys[key_of[f]].n_deg_witness++;
       }
-  if (opt.remove_duplicate_faces) {
-    std::set<Tri> seen;
+  if (opt.remove_duplicate_faces)
     for (uint32_t f = 0; f < nf; ++f) {
-      if (removed_ref[f]) continue;
-      const Mesh::Face &face = mesh.face(FaceIndex(f));
-      Tri t{face[0].value(), face[1].value(), face[2].value()};
-      if (degenerate(t)) continue;  // only triples of three distinct ids are required removals
-      if (!seen.insert(canon(t)).second) {
-        removed_ref[f] = 2;
-        keys[K[f]].n_required++;
-      }
+      if (removed_ref[f] || !fin[f].ids_distinct) continue;  // only triples of three distinct ids are required
+      for (uint32_t g = 0; g < f; ++g)
+        if (!removed_ref[g] && fin[g].ids_distinct && fin[g].pcls == fin[f].pcls) {
+          removed_ref[f] = true;
+          keys[key_of[f]].n_required++;
+          break;
+        }
     }
-  }
 
-  std::unique_ptr<Mesh> out = rg::clone_mesh(mesh);
-  const Status st = MeshCleanup::Cleanup(out.get(), opt);
-  ctx.count("cleanup_runs");
+  Snap o;
+  restore_mesh(mesh, out);
+  if (!take(*out, out, types, &o, &err) || !o.same_as(in)) {
+    ctx.fail("harness:restored-mesh-differs-from-original", err);
+    return false;
+  }
+  const Status st = MeshCleanup::Cleanup(out, opt);
+  ctx.count(k_cleanup_runs);
   if (!st.ok()) {
     ctx.fail("cleanup:returned-error|" + oname, cls + " " + st.error_msg_string());
     return false;
   }
-  if (out->num_attributes() != mesh.num_attributes()) {
-    ctx.fail("cleanup:attribute-count-changed|" + oname, cls);
+  if (!take(*out, out, types, &o, &err)) {
+    ctx.fail("cleanup:output-structurally-invalid|" + oname, cls + " " + err);
     return false;
   }
-  for (int a = 0; a < mesh.num_attributes(); ++a)
-    if (!rg::desc_of(out->attribute(a)).same_layout(rg::desc_of(mesh.attribute(a)))) {
-      ctx.fail("cleanup:attribute-descriptor-changed|" + oname, cls);
-      return false;
-    }
+  if (o.na != in.na) {
+    ctx.fail("cleanup:attribute-count-changed|" + oname, std::string(cls));
+    return false;
+  }
+  for (int a = 0; a < in.na; ++a)
+    for (int d = 0; d < 3; ++d)
+      if (o.desc[a][d] != in.desc[a][d]) {
+        ctx.fail("cleanup:attribute-descriptor-changed|" + oname, std::string(cls));
+        return false;
+      }
+  if (o.nf > nf) {
+    ctx.fail("cleanup:output-triangle-not-in-input|" + oname, cls + " more faces than before");
+    return false;
+  }
   // Output side.
-  const uint32_t no = out->num_faces();
-  std::set<std::string> out_pk;
-  std::set<Tri> out_classes;
-  for (uint32_t g = 0; g < no; ++g) {
-    std::string k, pk;
-    bool d;
-    if (!face_keys(*out, all, g, &k, &pk, &d, &err)) {
-      ctx.fail("cleanup:output-structurally-invalid|" + oname, cls + " face " + std::to_string(g) + ": " + err);
+  FaceInfo fout[kMaxFaces];
+  for (uint32_t g = 0; g < o.nf; ++g) {
+    if (!face_info(o, g, &fout[g], &err)) {
+      ctx.fail("cleanup:output-triangle-not-in-input|" + oname, cls + " " + err);
       return false;
     }
-    out_pk.insert(pk);
-    auto it = keys.find(k);
-    if (it == keys.end() || ++it->second.n_out > it->second.n_in) {
-      ctx.fail("cleanup:output-triangle-not-in-input|" + oname,  // (i)
-               cls + " output face " + std::to_string(g) + " corner values " + rg::hexs(k));
+    int k = 0;
+    while (k < nkeys && keys[k].K != fout[g].K) ++k;
+    if (k == nkeys || ++keys[k].n_out > keys[k].n_in) {  // (i)
+      ctx.fail("cleanup:output-triangle-not-in-input|" + oname, cls + " output face " + std::to_string(g));
       return false;
     }
-    if (opt.remove_degenerated_faces && d) {
-      ctx.fail("cleanup:position-degenerate-face-kept|" + oname, cls + " output face " + std::to_string(g));  // (iii)
+    if (opt.remove_degenerated_faces && fout[g].posdeg) {  // (iii)
+      ctx.fail("cleanup:position-degenerate-face-kept|" + oname, cls + " output face " + std::to_string(g));
       return false;
     }
-    const Mesh::Face &face = out->face(FaceIndex(g));
-    Tri t{face[0].value(), face[1].value(), face[2].value()};
-    if (opt.remove_duplicate_faces && !degenerate(t) && !out_classes.insert(canon(t)).second) {
-      ctx.fail("cleanup:duplicate-point-triple-kept|" + oname, cls + " output face " + std::to_string(g));  // (iii)
-      return false;
-    }
+    if (opt.remove_duplicate_faces && fout[g].ids_distinct)
+      for (uint32_t h = 0; h < g; ++h)
+        if (fout[h].ids_distinct && fout[h].pcls == fout[g].pcls) {  // (iii)
+          ctx.fail("cleanup:duplicate-point-triple-kept|" + oname, cls + " output faces " + std::to_string(h) + "," + std::to_string(g));
+          return false;
+        }
   }
   uint32_t rem_deg = 0, rem_dup = 0;
-  for (auto &kv : keys) {
-    const KeyInfo &ki = kv.second;
+  for (int k = 0; k < nkeys; ++k) {
+    const KeyInfo &ki = keys[k];
     if (ki.n_out > ki.n_in - ki.n_required) {  // (iii) on the multiset
       ctx.fail(std::string("cleanup:required-removal-missing|") + oname +
                    (ki.n_deg_witness ? ",degenerate" : ",duplicate-up-to-rotation"),
-               cls + " triangle " + rg::hexs(kv.first) + " in " + std::to_string(ki.n_in) + " out " +
-                   std::to_string(ki.n_out) + " required removals " + std::to_string(ki.n_required));
+               cls + " in " + std::to_string(ki.n_in) + " out " + std::to_string(ki.n_out) + " required removals " +
+                   std::to_string(ki.n_required));
       return false;
     }
     const int removed = ki.n_in - ki.n_out;
     if (removed > ki.n_deg_witness) {  // (ii) a removal that is not a degenerate one needs a kept twin
-      if (!opt.remove_duplicate_faces || !out_pk.count(ki.pk)) {
+      bool twin = false;
+      for (uint32_t g = 0; g < o.nf; ++g) twin |= fout[g].PK == ki.PK;
+      if (!opt.remove_duplicate_faces || !twin) {
         ctx.fail("cleanup:face-removed-without-witness|" + oname,
-                 cls + " triangle " + rg::hexs(kv.first) + " in " + std::to_string(ki.n_in) + " out " +
-                     std::to_string(ki.n_out));
+                 cls + " in " + std::to_string(ki.n_in) + " out " + std::to_string(ki.n_out));
         return false;
       }
     }
@@ -441,55 +642,37 @@ bool check_cleanup(const Mesh &mesh, int opt_mask, const std::string &cls, mc::C
   }
   // (iv)
   if (opt.remove_unused_attributes) {
-    std::vector<char> used(out->num_points(), 0);
-    for (uint32_t g = 0; g < no; ++g)
-      for (int k = 0; k < 3; ++k) used[out->face(FaceIndex(g))[k].value()] = 1;
-    for (uint32_t p = 0; p < out->num_points(); ++p)
+    bool used[kMaxPts] = {false};
+    for (uint32_t g = 0; g < o.nf; ++g)
+      for (int k = 0; k < 3; ++k) used[o.face[g][k]] = true;
+    for (uint32_t p = 0; p < o.np; ++p)
       if (!used[p]) {
         ctx.fail("cleanup:unused-point-remains|" + oname, cls + " point " + std::to_string(p));
         return false;
       }
-    for (int a = 0; a < out->num_attributes(); ++a) {
-      const PointAttribute *att = out->attribute(a);
-      std::vector<char> vused(att->size(), 0);
-      for (uint32_t p = 0; p < out->num_points(); ++p) {
-        uint32_t avi;
-        if (!rg::mapped(att, p, &avi, &err)) {
-          ctx.fail("cleanup:output-structurally-invalid|" + oname, cls + " " + err);
-          return false;
-        }
-        vused[avi] = 1;
-      }
-      for (uint32_t i = 0; i < att->size(); ++i)
+    for (int a = 0; a < o.na; ++a) {
+      bool vused[kMaxPts] = {false};
+      for (uint32_t p = 0; p < o.np; ++p) vused[o.map[a][p]] = true;
+      for (uint32_t i = 0; i < o.size[a]; ++i)
         if (!vused[i]) {
           ctx.fail("cleanup:unused-value-remains|" + oname, cls + " attribute " + std::to_string(a) + " entry " + std::to_string(i));
           return false;
         }
+      if (o.size[a] < in.size[a]) ctx.count(k_cleanup_values_removed_unused, in.size[a] - o.size[a]);
     }
-    if (out->num_points() < mesh.num_points()) ctx.count("cleanup_points_removed_unused", mesh.num_points() - out->num_points());
-    for (int a = 0; a < out->num_attributes(); ++a)
-      if (out->attribute(a)->size() < mesh.attribute(a)->size())
-        ctx.count("cleanup_values_removed_unused", mesh.attribute(a)->size() - out->attribute(a)->size());
+    if (o.np < in.np) ctx.count(k_cleanup_points_removed_unused, in.np - o.np);
   }
-  if (rem_deg) ctx.count("cleanup_faces_removed_degenerate", rem_deg);
-  if (rem_dup) ctx.count("cleanup_faces_removed_duplicate", rem_dup);
+  if (rem_deg) ctx.count(k_cleanup_faces_removed_degenerate, rem_deg);
+  if (rem_dup) ctx.count(k_cleanup_faces_removed_duplicate, rem_dup);
   if (rem_deg || rem_dup) *removed_any = true;
-  if (no == nf) ctx.count("cleanup_runs_keeping_all_faces");
-  // duplicates in draco's sense that the header's wording would also remove
-  // are not required: count how often the two notions differ
-  if (opt.remove_duplicate_faces && !opt.remove_degenerated_faces) {
-    std::map<std::string, int> by_pk;
-    for (uint32_t g = 0; g < no; ++g) {
-      std::string k, pk;
-      bool d;
-      face_keys(*out, all, g, &k, &pk, &d, &err);
-      by_pk[pk]++;
-    }
-    for (auto &kv : by_pk)
-      if (kv.second > 1) {
-        ctx.count("cleanup_kept_faces_equal_in_position_only");
-        break;
-      }
+  if (o.nf == nf) ctx.count(k_cleanup_runs_keeping_all_faces);
+  // faces the header's wording ("same position indices") would call
+  // duplicates but the code keeps: count how often the two notions differ
+  if (opt.remove_duplicate_faces) {
+    bool differ = false;
+    for (uint32_t g = 0; g < o.nf; ++g)
+      for (uint32_t h = 0; h < g; ++h) differ |= fout[h].PK == fout[g].PK;
+    if (differ) ctx.count(k_cleanup_runs_keeping_faces_equal_in_position_only);
   }
   return true;
 }
@@ -497,116 +680,120 @@ bool check_cleanup(const Mesh &mesh, int opt_mask, const std::string &cls, mc::C
 // ------------------------------------------------------------------- soups
 void check_soup(const Soup &s, mc::Ctx &ctx) {
   const int nc = 3 * s.F;
-  const std::string cls = input_class(s);
+  const LazyClass cls{&s};
+  int types[4] = {0, 0, 0, 0};
+  for (int i = 0; i < s.nextra; ++i) types[i] = s.extra[i].spec.type;
   // Expected geometry from the case description.
-  std::vector<std::string> tuple(nc);
+  int tup[9];
+  uint8_t bytes[9][80];
   for (int c = 0; c < nc; ++c) {
-    tuple[c] = pos_bytes(s.pos[c]);
-    for (auto &e : s.extra) tuple[c] += type_info(e.spec.type).val[e.value_at(c)];
+    tup[c] = s.pos[c];
+    int radix = 5, off = 12;
+    memcpy(bytes[c], kPosBits[s.pos[c]], 12);
+    for (int i = 0; i < s.nextra; ++i) {
+      const TypeInfo &ti = type_info(types[i]);
+      const int v = s.extra[i].value_at(c);
+      tup[c] += v * radix;
+      radix *= 2;
+      memcpy(bytes[c] + off, ti.val[v], ti.nbytes);
+      off += ti.nbytes;
+    }
   }
-  rg::Geom expect;
-  for (int f = 0; f < s.F; ++f) expect.elems.push_back(rg::canon_tri(tuple[3 * f], tuple[3 * f + 1], tuple[3 * f + 2]));
-  expect.finish();
+  Tris expect;
+  for (int f = 0; f < s.F; ++f) expect.add(canon3(tup[3 * f], tup[3 * f + 1], tup[3 * f + 2]));
+  expect.sort();
 
   // --- builder
   TriangleSoupMeshBuilder b;
   b.Start(s.F);
   const int pa = b.AddAttribute(GeometryAttribute::POSITION, 3, DT_FLOAT32);
-  std::vector<int> ids;
-  for (auto &e : s.extra) {
-    const TypeInfo &ti = type_info(e.spec.type);
-    ids.push_back(b.AddAttribute(ti.at, ti.comps, ti.dt));
+  int ids[4];
+  for (int i = 0; i < s.nextra; ++i) {
+    const TypeInfo &ti = type_info(types[i]);
+    ids[i] = b.AddAttribute(ti.at, ti.comps, ti.dt);
   }
   for (int f = 0; f < s.F; ++f) {
     b.SetAttributeValuesForFace(pa, FaceIndex(f), kPosBits[s.pos[3 * f]], kPosBits[s.pos[3 * f + 1]],
                                 kPosBits[s.pos[3 * f + 2]]);
-    for (size_t i = 0; i < s.extra.size(); ++i) {
+    for (int i = 0; i < s.nextra; ++i) {
       const Extra &e = s.extra[i];
-      const TypeInfo &ti = type_info(e.spec.type);
+      const TypeInfo &ti = type_info(types[i]);
       if (e.spec.per_face)
-        b.SetPerFaceAttributeValueForFace(ids[i], FaceIndex(f), ti.val[e.value_at(3 * f)].data());
+        b.SetPerFaceAttributeValueForFace(ids[i], FaceIndex(f), ti.val[e.value_at(3 * f)]);
       else
-        b.SetAttributeValuesForFace(ids[i], FaceIndex(f), ti.val[e.value_at(3 * f)].data(),
-                                    ti.val[e.value_at(3 * f + 1)].data(), ti.val[e.value_at(3 * f + 2)].data());
+        b.SetAttributeValuesForFace(ids[i], FaceIndex(f), ti.val[e.value_at(3 * f)], ti.val[e.value_at(3 * f + 1)],
+                                    ti.val[e.value_at(3 * f + 2)]);
     }
   }
   std::unique_ptr<Mesh> mesh = b.Finalize();
-  ctx.count("soups_built");
+  ctx.count(k_soups_built);
   if (!mesh) {
     ctx.fail("builder:finalize-returned-null|" + cls, "");
     return;
   }
-  if (mesh->num_attributes() != 1 + (int)s.extra.size() || (int)mesh->num_faces() != s.F) {
+  std::string err;
+  Snap m;
+  if (!take(*mesh, mesh.get(), types, &m, &err)) {
+    ctx.fail("builder:mesh-structurally-invalid|" + cls, err);
+    return;
+  }
+  if (m.na != 1 + s.nextra || (int)m.nf != s.F) {
     ctx.fail("builder:wrong-attribute-or-face-count|" + cls, "");
     return;
   }
   {
-    const PointAttribute *p = mesh->attribute(0);
-    bool ok = p->attribute_type() == GeometryAttribute::POSITION && p->data_type() == DT_FLOAT32 && p->num_components() == 3;
-    for (size_t i = 0; i < s.extra.size(); ++i) {
-      const TypeInfo &ti = type_info(s.extra[i].spec.type);
-      const PointAttribute *a = mesh->attribute(1 + i);
-      ok = ok && a->attribute_type() == ti.at && a->data_type() == ti.dt && a->num_components() == ti.comps;
+    bool ok = m.desc[0][0] == GeometryAttribute::POSITION && m.desc[0][1] == DT_FLOAT32 && m.desc[0][2] == 3;
+    for (int i = 0; i < s.nextra; ++i) {
+      const TypeInfo &ti = type_info(types[i]);
+      ok = ok && m.desc[1 + i][0] == ti.at && m.desc[1 + i][1] == ti.dt && m.desc[1 + i][2] == ti.comps;
     }
     if (!ok) {
       ctx.fail("builder:attribute-descriptor-wrong|" + cls, "");
       return;
     }
   }
-  const std::vector<int> all = rg::all_atts(*mesh);
-  std::string err;
-  rg::Geom got;
-  if (!rg::from_mesh(*mesh, all, &got, &err)) {
-    ctx.fail("builder:mesh-structurally-invalid|" + cls, err);
+  Tris got;
+  if (!geom_of(m, &got, &err)) {
+    ctx.fail("builder:geometry-changed|" + cls, err);
     return;
   }
   if (got != expect) {
-    ctx.fail("builder:geometry-changed|" + cls, "expected " + rg::show(expect) + " got " + rg::show(got));
+    ctx.fail("builder:geometry-changed|" + cls, "expected " + show(expect) + " got " + show(got));
     return;
   }
   // the builder deduplicates: no two identical values / points may remain
-  const bool nodup = check_no_duplicates(*mesh, "TriangleSoupMeshBuilder::Finalize", ctx);
-  if (!nodup) ctx.count("soups_with_duplicates_left");
+  if (!check_no_duplicates(m, "TriangleSoupMeshBuilder::Finalize", ctx)) ctx.count(k_soups_with_duplicates_left);
 
-  std::string snap0;
-  if (!rg::snapshot(*mesh, mesh.get(), &snap0, &err)) {
-    ctx.fail("builder:mesh-structurally-invalid|" + cls, err);
-    return;
-  }
-  ctx.state(mc::hash_bytes(snap0.data(), snap0.size()));
-  if ((int)mesh->num_points() < nc) ctx.count("soups_where_points_were_merged");
-  if (mesh->attribute(0)->size() < (size_t)nc) ctx.count("soups_where_position_values_were_merged");
+  ctx.state(m.structure_hash());
+  if ((int)m.np < nc) ctx.count(k_soups_where_points_were_merged);
+  if ((int)m.size[0] < nc) ctx.count(k_soups_where_position_values_were_merged);
   {
-    // +0 / -0 and the two NaN payloads must stay distinct values
-    std::set<int> used(s.pos, s.pos + nc);
-    if (mesh->attribute(0)->size() != used.size() && nodup) {
-      ctx.fail("dedup:position-values-merged-or-split|" + cls,
-               std::to_string(used.size()) + " distinct byte patterns in, " + std::to_string(mesh->attribute(0)->size()) +
-                   " entries out");
-      return;
+    bool used[5] = {false, false, false, false, false};
+    int cnt[5] = {0, 0, 0, 0, 0};
+    for (int c = 0; c < nc; ++c) {
+      used[s.pos[c]] = true;
+      cnt[s.pos[c]]++;
     }
-    if (used.count(0) && used.count(1)) ctx.count("soups_with_plus_and_minus_zero_kept_apart");
-    if (used.count(3) && used.count(4)) ctx.count("soups_with_two_nan_payloads_kept_apart");
-    bool nan_repeat = false;
-    for (int k = 3; k < 5; ++k) nan_repeat |= std::count(s.pos, s.pos + nc, k) > 1;
-    if (nan_repeat) ctx.count("soups_with_equal_nan_corners_merged");
+    if (used[0] && used[1]) ctx.count(k_soups_with_plus_and_minus_zero_kept_apart);
+    if (used[3] && used[4]) ctx.count(k_soups_with_two_nan_payloads_kept_apart);
+    if (cnt[3] > 1 || cnt[4] > 1) ctx.count(k_soups_with_equal_nan_corners_merged);
   }
 
   // --- dedup idempotence on the builder's result
   {
     std::unique_ptr<Mesh> c = rg::clone_mesh(*mesh);
-    std::string sc;
-    if (!rg::snapshot(*c, c.get(), &sc, &err) || sc != snap0) {
+    Snap sc;
+    if (!take(*c, c.get(), types, &sc, &err) || !sc.same_as(m)) {
       ctx.fail("harness:clone-differs-from-original", err);
       return;
     }
     for (int round = 0; round < 2; ++round) {
       if (!apply_dedup(c.get(), cls, ctx)) return;
-      if (!rg::snapshot(*c, c.get(), &sc, &err)) {
+      if (!take(*c, c.get(), types, &sc, &err)) {
         ctx.fail("dedup:result-structurally-invalid|" + cls, err);
         return;
       }
-      if (sc != snap0) {
+      if (!sc.same_as(m)) {
         ctx.fail("dedup:not-idempotent|mesh," + cls, "application " + std::to_string(round + 2) + " changed the mesh");
         return;
       }
@@ -618,76 +805,89 @@ void check_soup(const Soup &s, mc::Ctx &ctx) {
     std::unique_ptr<Mesh> raw(new Mesh());
     raw->SetNumFaces(s.F);
     raw->set_num_points(nc);
-    for (int a = 0; a < 1 + (int)s.extra.size(); ++a) {
+    for (int a = 0; a < 1 + s.nextra; ++a) {
       GeometryAttribute va;
       if (a == 0)
         va.Init(GeometryAttribute::POSITION, nullptr, 3, DT_FLOAT32, false, 12, 0);
       else {
-        const TypeInfo &ti = type_info(s.extra[a - 1].spec.type);
-        va.Init(ti.at, nullptr, ti.comps, ti.dt, false, DataTypeLength(ti.dt) * ti.comps, 0);
+        const TypeInfo &ti = type_info(types[a - 1]);
+        va.Init(ti.at, nullptr, ti.comps, ti.dt, false, ti.nbytes, 0);
       }
       raw->AddAttribute(va, true, nc);
     }
-    size_t off = 0;
     for (int c = 0; c < nc; ++c) {
-      off = 0;
+      int off = 0;
       for (int a = 0; a < raw->num_attributes(); ++a) {
-        const size_t n = rg::value_size(raw->attribute(a));
-        raw->attribute(a)->SetAttributeValue(AttributeValueIndex(c), tuple[c].data() + off);
-        off += n;
+        raw->attribute(a)->SetAttributeValue(AttributeValueIndex(c), bytes[c] + off);
+        off += a == 0 ? 12 : type_info(types[a - 1]).nbytes;
       }
     }
     for (int f = 0; f < s.F; ++f)
       raw->SetFace(FaceIndex(f), {{PointIndex(3 * f), PointIndex(3 * f + 1), PointIndex(3 * f + 2)}});
-    rg::Geom g;
-    if (!rg::from_mesh(*raw, all, &g, &err) || g != expect) {
+    Snap r;
+    Tris g;
+    if (!take(*raw, raw.get(), types, &r, &err) || !geom_of(r, &g, &err) || g != expect) {
       ctx.fail("harness:raw-mesh-differs-from-case", err);
       return;
     }
     if (!raw->DeduplicateAttributeValues()) {
-      ctx.fail("dedup:values-returned-false", cls);
+      ctx.fail("dedup:values-returned-false", std::string(cls));
       return;
     }
-    if (!rg::from_mesh(*raw, all, &g, &err)) {
-      ctx.fail("dedup:result-structurally-invalid|after-values," + cls, err);
+    if (!take(*raw, raw.get(), types, &r, &err) || !geom_of(r, &g, &err)) {
+      ctx.fail("dedup:values-changed-geometry|" + cls, err);
       return;
     }
     if (g != expect) {
-      ctx.fail("dedup:values-changed-geometry|" + cls, "expected " + rg::show(expect) + " got " + rg::show(g));
+      ctx.fail("dedup:values-changed-geometry|" + cls, "expected " + show(expect) + " got " + show(g));
       return;
     }
     raw->DeduplicatePointIds();
-    ctx.count("dedup_applications");
-    if (!rg::from_mesh(*raw, all, &g, &err)) {
-      ctx.fail("dedup:result-structurally-invalid|after-point-ids," + cls, err);
+    ctx.count(k_dedup_applications);
+    if (!take(*raw, raw.get(), types, &r, &err) || !geom_of(r, &g, &err)) {
+      ctx.fail("dedup:point-ids-changed-geometry|" + cls, err);
       return;
     }
     if (g != expect) {
-      ctx.fail("dedup:point-ids-changed-geometry|" + cls, "expected " + rg::show(expect) + " got " + rg::show(g));
+      ctx.fail("dedup:point-ids-changed-geometry|" + cls, "expected " + show(expect) + " got " + show(g));
       return;
     }
-    check_no_duplicates(*raw, "Mesh::DeduplicateAttributeValues+DeduplicatePointIds", ctx);
+    check_no_duplicates(r, "Mesh::DeduplicateAttributeValues+DeduplicatePointIds", ctx);
   }
 
   // --- clean-up, every option subset
+  FaceInfo fin[kMaxFaces];
+  for (uint32_t f = 0; f < m.nf; ++f)
+    if (!face_info(m, f, &fin[f], &err)) {
+      ctx.fail("builder:geometry-changed|" + cls, err);
+      return;
+    }
   bool removed_any = false;
-  for (int mask = 0; mask < 16; ++mask)
-    if (!check_cleanup(*mesh, mask, cls, ctx, &removed_any)) return;
+  {
+    std::unique_ptr<Mesh> scratch = rg::clone_mesh(*mesh);
+    for (int mask = 0; mask < 16; ++mask)
+      if (!check_cleanup(*mesh, scratch.get(), m, fin, types, mask, cls, ctx, &removed_any)) return;
+  }
 
   // --- strips
   bool multi = false;
-  if (!check_strips(*mesh, cls, ctx, &multi)) return;
+  if (!check_strips(*mesh, m, cls, ctx, &multi)) return;
 
-  if ((int)mesh->num_points() < nc || removed_any || multi) ctx.nontrivial_unique();
+  if ((int)m.np < nc || removed_any || multi) ctx.nontrivial_unique();
 }
 
 struct SoupSpace {
   int F;
   std::vector<int> alpha;  // position alphabet (indices into kPosBits)
   std::vector<ExtraSpec> extras;
+  // If set (needs a 3-letter alphabet): face 0 is one of the 6 orderings of
+  // the three letters (the only non-degenerate triangle over 3 letters), the
+  // other faces are arbitrary.
+  bool face0_nondegenerate = false;
   uint64_t size() const {
     uint64_t n = 1;
-    for (int i = 0; i < 3 * F; ++i) n *= alpha.size();
+    for (int i = face0_nondegenerate ? 3 : 0; i < 3 * F; ++i) n *= alpha.size();
+    if (face0_nondegenerate) n *= 6;
     for (auto &e : extras) n <<= (e.per_face ? F : 3 * F);
     return n;
   }
@@ -700,9 +900,16 @@ struct SoupSpace {
       x.spec = e;
       x.bits = idx & ((1u << nb) - 1);
       idx >>= nb;
-      s.extra.push_back(x);
+      s.extra[s.nextra++] = x;
     }
-    for (int c = 0; c < 3 * F; ++c) {
+    int c = 0;
+    if (face0_nondegenerate) {
+      static const int perm[6][3] = {{0, 1, 2}, {0, 2, 1}, {1, 0, 2}, {1, 2, 0}, {2, 0, 1}, {2, 1, 0}};
+      const int p = idx % 6;
+      idx /= 6;
+      for (; c < 3; ++c) s.pos[c] = alpha[perm[p][c]];
+    }
+    for (; c < 3 * F; ++c) {
       s.pos[c] = alpha[idx % alpha.size()];
       idx /= alpha.size();
     }
@@ -753,99 +960,128 @@ std::string input_class(const Cloud &c) {
   return k;
 }
 
+struct Pts {
+  int n = 0;
+  int k[kMaxPts];
+  void sort() { std::sort(k, k + n); }
+  void unique() { n = std::unique(k, k + n) - k; }
+  bool operator==(const Pts &o) const { return n == o.n && std::equal(k, k + n, o.k); }
+  bool operator!=(const Pts &o) const { return !(*this == o); }
+};
+std::string show(const Pts &p) {
+  std::string s = "{";
+  for (int i = 0; i < p.n; ++i) s += (i ? " " : "") + std::to_string(p.k[i]);
+  return s + "} as point tuple numbers (position index + 5*second-attribute bit)";
+}
+bool points_of(const Snap &s, Pts *out, std::string *err) {
+  out->n = 0;
+  for (uint32_t p = 0; p < s.np; ++p) {
+    const int t = tuple_of(s, p);
+    if (t < 0) {
+      *err = "point " + std::to_string(p) + " carries a value that is not an input value";
+      return false;
+    }
+    out->k[out->n++] = t;
+  }
+  out->sort();
+  return true;
+}
+
 void check_cloud(const Cloud &c, mc::Ctx &ctx) {
   const std::string cls = input_class(c);
-  std::vector<std::string> tuple(c.N);
-  rg::Geom expect;
-  for (int i = 0; i < c.N; ++i) {
-    tuple[i] = pos_bytes(c.pos[i]);
-    if (c.type >= 0) tuple[i] += type_info(c.type).val[(c.bits >> i) & 1];
-    expect.elems.push_back(tuple[i]);
-  }
-  expect.finish();
-  const rg::Geom expect_set = expect.as_set();
+  const int types[4] = {c.type < 0 ? 0 : c.type, 0, 0, 0};
+  const int na = c.type >= 0 ? 2 : 1;
+  Pts expect;
+  for (int i = 0; i < c.N; ++i) expect.k[expect.n++] = c.pos[i] + (c.type >= 0 ? 5 * ((c.bits >> i) & 1) : 0);
+  expect.sort();
+  Pts expect_set = expect;
+  expect_set.unique();
 
   PointCloudBuilder b;
   b.Start(c.N);
-  std::vector<int> ids;
-  ids.push_back(b.AddAttribute(GeometryAttribute::POSITION, 3, DT_FLOAT32));
+  int ids[2];
+  ids[0] = b.AddAttribute(GeometryAttribute::POSITION, 3, DT_FLOAT32);
   if (c.type >= 0) {
     const TypeInfo &ti = type_info(c.type);
-    ids.push_back(b.AddAttribute(ti.at, ti.comps, ti.dt));
+    ids[1] = b.AddAttribute(ti.at, ti.comps, ti.dt);
   }
-  size_t off = 0;
-  for (size_t a = 0; a < ids.size(); ++a) {
-    const size_t n = a == 0 ? 12 : type_info(c.type).val[0].size();
+  for (int a = 0; a < na; ++a) {
+    const int n = a == 0 ? 12 : type_info(c.type).nbytes;
+    auto value = [&](int i) -> const void * {
+      return a == 0 ? (const void *)kPosBits[c.pos[i]] : (const void *)type_info(c.type).val[(c.bits >> i) & 1];
+    };
     if (c.setter == 0) {
-      for (int i = 0; i < c.N; ++i) b.SetAttributeValueForPoint(ids[a], PointIndex(i), tuple[i].data() + off);
+      for (int i = 0; i < c.N; ++i) b.SetAttributeValueForPoint(ids[a], PointIndex(i), value(i));
     } else {
-      const size_t stride = c.setter == 1 ? n : n + 3;
-      std::string buf(stride * c.N + 1, '\x5a');
-      for (int i = 0; i < c.N; ++i) memcpy(&buf[i * stride], tuple[i].data() + off, n);
-      b.SetAttributeValuesForAllPoints(ids[a], buf.data(), c.setter == 1 ? 0 : (int)stride);
+      const int stride = c.setter == 1 ? n : n + 3;
+      uint8_t buf[4 * 23 + 1];
+      memset(buf, 0x5a, sizeof buf);
+      for (int i = 0; i < c.N; ++i) memcpy(buf + i * stride, value(i), n);
+      b.SetAttributeValuesForAllPoints(ids[a], buf, c.setter == 1 ? 0 : stride);
     }
-    off += n;
   }
   std::unique_ptr<PointCloud> pc = b.Finalize(c.dedup);
-  ctx.count("clouds_built");
+  ctx.count(k_clouds_built);
   if (!pc) {
     ctx.fail("pcbuilder:finalize-returned-null|" + cls, "");
     return;
   }
-  if (pc->num_attributes() != (int)ids.size()) {
+  std::string err;
+  Snap s;
+  if (!take(*pc, nullptr, types, &s, &err)) {
+    ctx.fail("pcbuilder:cloud-structurally-invalid|" + cls, err);
+    return;
+  }
+  if (s.na != na) {
     ctx.fail("pcbuilder:wrong-attribute-count|" + cls, "");
     return;
   }
-  const std::vector<int> all = rg::all_atts(*pc);
-  std::string err;
-  rg::Geom got;
-  if (!rg::from_cloud(*pc, all, &got, &err)) {
-    ctx.fail("pcbuilder:cloud-structurally-invalid|" + cls, err);
+  Pts got;
+  if (!points_of(s, &got, &err)) {
+    ctx.fail("pcbuilder:geometry-changed|" + cls, err);
     return;
   }
   if (!c.dedup) {
     // no deduplication requested: the multiset of points is the input
     if (got != expect) {
-      ctx.fail("pcbuilder:geometry-changed|" + cls, "expected " + rg::show(expect) + " got " + rg::show(got));
+      ctx.fail("pcbuilder:geometry-changed|" + cls, "expected " + show(expect) + " got " + show(got));
       return;
     }
     if (!apply_dedup(pc.get(), cls, ctx)) return;
-    if (!rg::from_cloud(*pc, all, &got, &err)) {
-      ctx.fail("dedup:result-structurally-invalid|cloud," + cls, err);
+    if (!take(*pc, nullptr, types, &s, &err) || !points_of(s, &got, &err)) {
+      ctx.fail("dedup:cloud-geometry-changed|" + cls, err);
       return;
     }
   }
   // deduplicated (by Finalize(true) or by hand): the documented removal is
   // "duplicate points", so the set of distinct points is unchanged ...
-  if (got.as_set() != expect_set) {
-    ctx.fail("dedup:cloud-geometry-changed|" + cls, "expected set " + rg::show(expect_set) + " got " + rg::show(got));
+  Pts got_set = got;
+  got_set.unique();
+  if (got_set != expect_set) {
+    ctx.fail("dedup:cloud-geometry-changed|" + cls, "expected the set " + show(expect_set) + " got " + show(got));
     return;
   }
   // ... and no two identical values / points remain
-  const bool nodup = check_no_duplicates(*pc, c.dedup ? "PointCloudBuilder::Finalize(true)" : "PointCloud dedup", ctx);
+  const bool nodup = check_no_duplicates(s, c.dedup ? "PointCloudBuilder::Finalize(true)" : "PointCloud dedup", ctx);
   if (nodup && got != expect_set) {
-    ctx.fail("dedup:identical-points-remain|by-value," + cls, "got " + rg::show(got));
+    ctx.fail("dedup:identical-points-remain|by-value," + cls, "got " + show(got));
     return;
   }
-  if (got.elems.size() < expect.elems.size()) ctx.count("clouds_where_points_were_merged");
-  std::string s1, s2;
-  if (!rg::snapshot(*pc, nullptr, &s1, &err)) {
-    ctx.fail("dedup:result-structurally-invalid|cloud," + cls, err);
-    return;
-  }
-  ctx.state(mc::hash_bytes(s1.data(), s1.size(), 77));
+  if (got.n < expect.n) ctx.count(k_clouds_where_points_were_merged);
+  ctx.state(mc::hash_combine(s.structure_hash(), 77));
+  Snap s2;
   for (int round = 0; round < 2; ++round) {
     if (!apply_dedup(pc.get(), cls, ctx)) return;
-    if (!rg::snapshot(*pc, nullptr, &s2, &err)) {
+    if (!take(*pc, nullptr, types, &s2, &err)) {
       ctx.fail("dedup:result-structurally-invalid|cloud," + cls, err);
       return;
     }
-    if (s2 != s1) {
+    if (!s2.same_as(s)) {
       ctx.fail("dedup:not-idempotent|cloud," + cls, "a further application changed the point cloud");
       return;
     }
   }
-  if (got.elems.size() < expect.elems.size()) ctx.nontrivial_unique();
+  if (got.n < expect.n) ctx.nontrivial_unique();
 }
 
 void add_cloud_space(mc::Runner &R, int N) {
@@ -877,7 +1113,11 @@ void add_cloud_space(mc::Runner &R, int N) {
   sp.size = 2 * 3 * cfg * npos;
   sp.run = [=](uint64_t idx, mc::Ctx &ctx) { check_cloud(decode(idx), ctx); };
   sp.describe = [=](uint64_t idx) { return show(decode(idx)); };
-  sp.klass = [=](uint64_t idx) { return input_class(decode(idx)); };
+  // coarse class for crash signatures: one signature per call path
+  sp.klass = [=](uint64_t idx) {
+    const Cloud c = decode(idx);
+    return std::string(c.N == 0 ? "N=0" : "N>0") + ",setter" + std::to_string(c.setter);
+  };
   R.add(sp);
 }
 
@@ -886,23 +1126,27 @@ void add_cloud_space(mc::Runner &R, int N) {
 int main(int argc, char **argv) {
   mc::Runner R(argc, argv, "C14");
   R.level = "model_checking";
-  R.distinct_bits = 25;
+  R.distinct_bits = 22;
   R.rule =
       "every triangle soup of F faces whose 3F corner positions are drawn from 5 float bit patterns {(0,0,0), (0,0,-0.0), "
       "(1,0,0), (0,NaN_a,0), (0,NaN_b,0)} combined with every per-corner / per-face assignment of a 2-value second "
       "attribute (float32x3, uint8x4, int32x1, int16x5), and every point set of N <= 4 points over the same alphabets "
       "x 3 setter paths x Finalize(true|false); each is built with the real builders, deduplicated again twice, cleaned "
       "with all 16 MeshCleanupOptions subsets and stripified in both output modes. states = distinct resulting "
-      "mesh/point-cloud structures (entries, point->entry maps, faces); non-trivial = inputs (distinct by "
-      "construction) for which the builder merged at least two corners/points into one, or a clean-up run removed a "
-      "face, or a strip covers more than one face";
+      "mesh/point-cloud structures (entry counts, point->entry maps, faces; value bytes not included); non-trivial = "
+      "inputs (distinct by construction) for which the builder merged at least two corners/points into one, or a "
+      "clean-up run removed a face, or a strip covers more than one face";
   R.explanation =
       "stateless exhaustive enumeration of the input spaces on the real draco utilities; oracle = reference triangle / "
       "point multiset computed from the case description (byte-exact), the clean-up sandwich (i)-(iv) of DESIGN C14, a "
       "reference strip decoder, and structural snapshots for idempotence";
   R.assumptions = {
-      "F <= 3 faces (F = 3 with a second attribute: per-face uint8x4 over the full position alphabet, per-corner "
-      "float32x3 over the 3-letter alphabet {+0,-0,NaN_a}); N <= 4 points; 1, 2 or 5 attributes",
+      "F <= 3 faces; F = 3 with a second attribute is bounded further: per-face uint8x4 over the 4-letter position "
+      "alphabet {+0,-0,NaN_a,NaN_b}; per-corner float32x3 (all 512 patterns) over the 3-letter alphabet {+0,-0,NaN_a} "
+      "with face 0 one of the 6 orderings of the non-degenerate triangle and faces 1,2 arbitrary; 5-attribute soups over "
+      "the 3-letter alphabet; N <= 4 points; 1, 2 or 5 attributes",
+      "quick runs the F = 2 per-corner products over sub-alphabets (4 letters for float32x3, 3 letters for the other "
+      "types); thorough runs them over all 5 letters",
       "positions are float32x3 (the type every draco loader produces); the second attribute covers float32x3, uint8x4, "
       "int32x1 and a 5-component int16",
       "MeshCleanup duplicate faces are judged by the sandwich of DESIGN C14 because header and code disagree on what a "
@@ -912,30 +1156,35 @@ int main(int argc, char **argv) {
                            "dedup_applications"};
 
   const std::vector<int> A5 = {0, 1, 2, 3, 4};
-  const std::vector<int> A3 = {0, 1, 3};
+  const std::vector<int> A4 = {0, 1, 3, 4};  // +0, -0, NaN_a, NaN_b
+  const std::vector<int> A3 = {0, 1, 3};     // +0, -0, NaN_a
   const char *tn[4] = {"f32x3", "u8x4", "i32x1", "i16x5"};
   // F = 0: the empty soup, without and with a second attribute
   add_soup_space(R, "soup_F0_pos", {0, A5, {}}, true, true);
   for (int t = 0; t < 4; ++t) add_soup_space(R, std::string("soup_F0_") + tn[t], {0, A5, {{t, false}}}, true, true);
+  // F = 1, 2 over the full 5-letter alphabet. The per-corner F = 2 products
+  // (10^6 each) run in thorough; quick runs them over sub-alphabets (spaces
+  // *_pos4 / *_pos3 below, subsets of the thorough spaces).
   for (int F = 1; F <= 2; ++F) {
     const std::string p = "soup_F" + std::to_string(F);
     add_soup_space(R, p + "_pos", {F, A5, {}}, true, true);
     for (int t = 0; t < 4; ++t) {
-      add_soup_space(R, p + "_face_" + tn[t], {F, A5, {{t, true}}}, true, true);
-      // quick keeps the full per-corner product for the deduplicated float
-      // type and the 5-component type; the two other integer types differ
-      // only in the template instantiation and run in thorough
-      const bool q = F == 1 || t == 0 || t == 3;
-      add_soup_space(R, p + "_corner_" + tn[t], {F, A5, {{t, false}}}, q, true);
+      // quick: per-face for the float type and the 5-component type (the two
+      // other integer types take the same dedup path as float32x3)
+      add_soup_space(R, p + "_face_" + tn[t], {F, A5, {{t, true}}}, F == 1 || t == 0 || t == 3, true);
+      add_soup_space(R, p + "_corner_" + tn[t], {F, A5, {{t, false}}}, F == 1, true);
     }
   }
-  // five attributes at once (per-face values), 3-letter position alphabet
-  add_soup_space(R, "soup_F2_5atts_face", {2, A3, {{0, true}, {1, true}, {2, true}, {3, true}}}, true, true);
-  add_soup_space(R, "soup_F1_5atts_corner", {1, A5, {{0, false}, {1, false}, {2, false}, {3, false}}}, true, true);
+  add_soup_space(R, "soup_F2_corner_f32x3_pos4", {2, A4, {{0, false}}}, true, false);
+  for (int t = 1; t < 4; ++t)
+    add_soup_space(R, std::string("soup_F2_corner_") + tn[t] + "_pos3", {2, A3, {{t, false}}}, true, false);
+  // five attributes at once, 3-letter position alphabet
+  add_soup_space(R, "soup_F2_5atts_face_pos3", {2, A3, {{0, true}, {1, true}, {2, true}, {3, true}}}, true, true);
+  add_soup_space(R, "soup_F1_5atts_corner_pos3", {1, A3, {{0, false}, {1, false}, {2, false}, {3, false}}}, true, true);
   // F = 3 (thorough)
   add_soup_space(R, "soup_F3_pos", {3, A5, {}}, false, true);
-  add_soup_space(R, "soup_F3_face_u8x4", {3, A5, {{1, true}}}, false, true);
-  add_soup_space(R, "soup_F3_corner_f32x3_pos3", {3, A3, {{0, false}}}, false, true);
+  add_soup_space(R, "soup_F3_face_u8x4_pos4", {3, A4, {{1, true}}}, false, true);
+  add_soup_space(R, "soup_F3_corner_f32x3_pos3_face0nondeg", {3, A3, {{0, false}}, true}, false, true);
   for (int N = 0; N <= 4; ++N) add_cloud_space(R, N);
 
   R.require("soups_where_points_were_merged", 1);
